@@ -12,6 +12,8 @@
 //!       answer: `none` | `some <valid caller registers, sorted> clears:<names passed to clear_caller_register>` | `PANIC`
 //!   `win stack ...` same fields: the real x86 unwinder (`minidump_unwind::walk_stack`) on a synthetic
 //!       context/stack/module with the records as its symbol file (oracle only, no model request).
+//!   `win rw valid:<..> trust:<..> ...` the real `SymbolFile::walk_frame` on the real `CfiStackWalker<CONTEXT_X86>`
+//!       (see win_rw.rs), compared with `MdModel.WinWalker` and with the mock twin.
 
 use crate::common::*;
 use breakpad_symbols::{FrameWalker, Module, SymbolFile};
@@ -20,6 +22,10 @@ use std::collections::{BTreeMap, BTreeSet};
 use std::fmt::Write as _;
 
 pub struct Win;
+
+/// `win rw …`: the same STACK WIN evaluation on the REAL `CfiStackWalker<CONTEXT_X86>`
+#[path = "win_rw.rs"]
+mod rw;
 
 const SIX: [&str; 6] = ["eip", "esp", "ebp", "ebx", "esi", "edi"];
 const X86_REGS: [&str; 10] = ["eip", "esp", "ebp", "ebx", "esi", "edi", "eax", "ecx", "edx", "eflags"];
@@ -626,7 +632,7 @@ impl Engine for Win {
     }
 
     fn model_request(&self, case: &str) -> Option<String> {
-        if case.starts_with("win walk ") {
+        if case.starts_with("win walk ") || case.starts_with("win rw ") {
             Some(case.to_string())
         } else {
             None
@@ -634,6 +640,9 @@ impl Engine for Win {
     }
 
     fn exec(&self, case: &str) -> ImplResult {
+        if case.starts_with("win rw ") {
+            return rw::exec(case);
+        }
         let mut res = ImplResult::default();
         let Some(c) = parse_case(case) else {
             res.out = "bad-op".into();
@@ -801,6 +810,9 @@ impl Engine for Win {
     }
 
     fn shrink(&self, case: &str, still_fails: &dyn Fn(&str) -> bool) -> String {
+        if case.starts_with("win rw ") {
+            return rw::shrink(case, still_fails);
+        }
         let Some(mut c) = parse_case(case) else { return case.to_string() };
         let mut progress = true;
         let mut rounds = 0;
@@ -1095,7 +1107,11 @@ mod gen {
     }
 
     fn mk_case(e: &Env, base: u64, instr: u64, g: (bool, u32), cfi: bool, recs: Vec<Rec>) -> String {
-        render(&Case {
+        render(&mk(e, base, instr, g, cfi, recs))
+    }
+
+    fn mk(e: &Env, base: u64, instr: u64, g: (bool, u32), cfi: bool, recs: Vec<Rec>) -> Case {
+        Case {
             mode: "walk".into(),
             base,
             instr,
@@ -1106,7 +1122,7 @@ mod gen {
             mem_base: e.mem_base,
             mem: e.mem.clone(),
             recs,
-        })
+        }
     }
 
     fn fixed_env() -> Env {
@@ -1143,13 +1159,23 @@ mod gen {
         Rec { ty: '0', addr, size, par, sav, loc, hp: '0', rest: rest.as_bytes().to_vec() }
     }
 
-    fn exhaustive(alphabet: &[&str], len: usize, emit: &mut dyn FnMut(String)) {
+    /// the classic tail of a program string: return address and stack pointer from the search start
+    pub const TAIL: &str = "$eip .raSearch ^ = $esp .raSearch 4 + =";
+
+    fn exhaustive(alphabet: &[&str], len: usize, rw_every: usize, rw_rng: &mut Rng, emit: &mut dyn FnMut(String)) {
         let e = fixed_env();
         let n = alphabet.len();
         let mut idx = vec![0usize; len];
+        let mut k = 0usize;
         loop {
             let prog = idx.iter().map(|i| alphabet[*i]).collect::<Vec<_>>().join(" ");
             emit(mk_case(&e, 0x40_0000, 0x40_1005, (true, 8), false, vec![fd(0x1000, 0x100, 0xc, 4, 8, &prog)]));
+            if k % rw_every == 0 {
+                // the real walker: the program in front of the classic tail, so that a frame results
+                let p = format!("{prog} {TAIL}");
+                emit(rw::from_walk(&mk(&e, 0x40_0000, 0x40_1005, (true, 8), false, vec![fd(0x1000, 0x100, 0xc, 4, 8, &p)]), rw_rng));
+            }
+            k += 1;
             let mut k = len;
             loop {
                 if k == 0 {
@@ -1170,13 +1196,15 @@ mod gen {
             Tier::Quick => (2, 4, 240_000, 12_000),
             Tier::Thorough => (3, 5, 1_500_000, 60_000),
         };
+        let mut rw_rng = rng.fork();
+        let rw_rng = &mut rw_rng;
         // ---- exhaustive programs
         emit(mk_case(&fixed_env(), 0x40_0000, 0x40_1005, (true, 8), false, vec![fd(0x1000, 0x100, 0xc, 4, 8, "")]));
         for len in 1..=full_len {
-            exhaustive(&FULL, len, emit);
+            exhaustive(&FULL, len, if len <= 2 { 1 } else { 16 }, rw_rng, emit);
         }
         for len in (full_len + 1)..=core_len {
-            exhaustive(&CORE, len, emit);
+            exhaustive(&CORE, len, if len <= 3 { 1 } else { 8 }, rw_rng, emit);
         }
         // ---- all pairs of boundary size fields for fpo (local, saved) x gc param boundary, both abp values
         for &loc in &SIZES {
@@ -1189,13 +1217,15 @@ mod gen {
                     }
                     for abp in ["0", "1"] {
                         emit(mk_case(&e, 0, 0x10, *g, false, vec![fpo(0, 0x100, 0, sav, loc, abp)]));
+                        emit(rw::from_walk(&mk(&e, 0, 0x10, *g, false, vec![fpo(0, 0x100, 0, sav, loc, abp)]), rw_rng));
                     }
-                    emit(mk_case(&e, 0, 0x10, *g, false, vec![fd(0, 0x100, 4, sav, loc, "$eip .raSearch ^ = $esp .raSearch 4 + =")]));
+                    emit(mk_case(&e, 0, 0x10, *g, false, vec![fd(0, 0x100, 4, sav, loc, TAIL)]));
+                    emit(rw::from_walk(&mk(&e, 0, 0x10, *g, false, vec![fd(0, 0x100, 4, sav, loc, TAIL)]), rw_rng));
                 }
             }
         }
         // ---- random
-        for _ in 0..random_n {
+        for case_no in 0..random_n {
             let sane = rng.chance(1, 2);
             let e = env(rng, sane);
             let g = gc(rng, sane);
@@ -1292,7 +1322,64 @@ mod gen {
                 }
                 _ => {} // no STACK WIN at all
             }
+            if case_no % 4 == 0 {
+                // the same case for the real walker; half of the program strings get the classic tail
+                let mut c = mk(&e, base, instr, g, cfi, recs.clone());
+                if rw_rng.chance(1, 2) {
+                    for r in c.recs.iter_mut().filter(|r| r.ty == '4' && r.hp == '1') {
+                        r.rest.extend_from_slice(format!(" {TAIL}").as_bytes());
+                    }
+                }
+                emit(rw::from_walk(&c, rw_rng));
+            }
             emit(mk_case(&e, base, instr, g, cfi, recs));
+        }
+        // ---- the real walker on cases built to produce a frame: small size fields, the stack pointer in the
+        //      lower part of the stack (at address 0, in the middle, or ending exactly at 2^32), program strings
+        //      ending in the classic tail or fpo records, every shape of grand callee
+        for k in 0..random_n / 8 {
+            let mut e = env(rng, true);
+            let words = (e.mem.len() / 4) as u64;
+            let new_base: u64 = match rng.below(6) {
+                0 => 0,
+                1 => (1u64 << 32) - 4 * words,
+                _ => e.mem_base,
+            };
+            let delta = new_base.wrapping_sub(e.mem_base) as u32;
+            let esp = (new_base as u32).wrapping_add(4 * rng.below(words / 4 + 1) as u32);
+            for (n, v) in e.regs.iter_mut() {
+                if n == "esp" {
+                    *v = esp;
+                } else if n == "ebp" {
+                    *v = v.wrapping_add(delta);
+                }
+            }
+            if !e.regs.iter().any(|(n, _)| n == "esp") {
+                e.regs.push(("esp".into(), esp));
+            }
+            e.mem_base = new_base;
+            let g = gc(rng, true);
+            let off: u64 = 0x1000 + rng.below(0x100);
+            let small = |rng: &mut Rng| 4 * rng.below(5) as u32;
+            let rec = if k % 3 == 0 {
+                let abp = if rng.chance(1, 2) { "0" } else { "1" };
+                fpo(off - 2, 0x10, small(rng), small(rng), small(rng), abp)
+            } else {
+                let mut p = match rng.below(3) {
+                    0 => String::new(),
+                    _ => format!("{} ", program(rng)),
+                };
+                p.push_str(TAIL);
+                match rng.below(6) {
+                    0 => p.push_str(" $ebp .raSearch 4 - ^ ="),
+                    1 => p.push_str(" $ebx .undef ="),
+                    2 => p.push_str(" $ebp .undef = $esi $T0 ="),
+                    3 => p.push_str(" $esi 4294967295 = $edi -1 ="),
+                    _ => {}
+                }
+                fd(off - 2, 0x10, small(rng), small(rng), small(rng), &p)
+            };
+            emit(rw::from_walk(&mk(&e, 0x40_0000, 0x40_0000 + off, g, rng.chance(1, 10), vec![rec]), rw_rng));
         }
         // ---- the real x86 unwinder
         stack::generate(stack_n, rng, emit);
@@ -1391,9 +1478,9 @@ mod stack {
         }
     }
 
-    struct Frame1 {
-        trust_cfi: bool,
-        valid: BTreeMap<String, u32>,
+    pub struct Frame1 {
+        pub trust_cfi: bool,
+        pub valid: BTreeMap<String, u32>,
     }
 
     fn run(c: &Case) -> Result<Option<Frame1>, String> {
@@ -1508,8 +1595,14 @@ mod stack {
                 f.valid.iter().map(|(n, v)| format!("{n}={v:x}")).collect::<Vec<_>>().join(",")
             ),
         };
-        // documented result of the selected record
-        let Some(sel) = doc_select(c) else { return res };
+        judge(c, &f1, &res.out.clone(), &mut res);
+        res
+    }
+
+    /// the documented result of the selected record against the frame `walk_stack` produced
+    /// (`c.regs` = the callee's VALID registers; shared with the `win rw` cases)
+    pub fn judge(c: &Case, f1: &Option<Frame1>, out: &str, res: &mut ImplResult) {
+        let Some(sel) = doc_select(c) else { return };
         let callee: BTreeMap<&str, u32> = c.regs.iter().map(|(n, v)| (n.as_str(), *v)).collect();
         let env = DocEnv { regs: callee.clone(), case: c };
         let doc = match sel {
@@ -1517,7 +1610,7 @@ mod stack {
             Some((true, r)) => doc_framedata(r, &env),
             Some((false, r)) => doc_fpo(r, r.rest == b"1", &env),
         };
-        res.tags.push(format!("stack:{}", match (&doc, &f1) {
+        res.tags.push(format!("stack:{}", match (&doc, f1) {
             (Doc::Known(_), Some(f)) if f.trust_cfi => "win-frame",
             (Doc::Known(_), _) => "win-rejected",
             (Doc::Fail, Some(f)) if f.trust_cfi => "cfi-frame",
@@ -1531,7 +1624,7 @@ mod stack {
             let usable = sp_in_stack
                 && k.get("eip").is_some_and(|ip| *ip >= 4096)
                 && k.get("esp").is_some_and(|sp| Some(*sp) > callee_esp);
-            match &f1 {
+            match f1 {
                 Some(f) if f.trust_cfi => {
                     for r in SIX {
                         match (k.get(r), f.valid.get(r)) {
@@ -1558,11 +1651,10 @@ mod stack {
                 }
                 _ if usable => res.oracle.push((
                     "win-stack-doc-mismatch".into(),
-                    format!("documentation: caller registers {k:x?}; walk_stack produced {}", res.out),
+                    format!("documentation: caller registers {k:x?}; walk_stack produced {out}"),
                 )),
                 _ => {}
             }
         }
-        res
     }
 }
